@@ -6,6 +6,7 @@ the exception; (c) M5 recording mapping passed as `names` to eval: every key the
 host for must be in list_names(text) or in the fixed implicit set.
 """
 import collections.abc
+import os
 import random
 
 from lib import gram
@@ -20,6 +21,7 @@ RULE = ('(a) random derivations of the grammar (and one-token mutants: list_name
         'host mapping. Non-trivial = a text with >= 1 identifier compared / >= 1 host lookup recorded; distinct = distinct text.')
 RULE += ' The identifier pool includes letters that Unicode normalisation would rewrite (OHM/KELVIN/ANGSTROM SIGN, fullwidth letters, ligatures).'
 RULE += ' One case in three runs on a parser whose host parse cache can refuse a store (shared earlier-call kit); one in four evaluations uses a read-only recording Mapping that is not a dict.'
+RULE += ' Coverage-guided texts: one atheris/libFuzzer process per worker (6 s quick, 150 s thorough) comparing list_names with the NAME tokens of the reference lexer (ParserError after exactly the names before an illegal character); inputs on which a difference was seen are judged again by the worker.'
 ASSUMPTIONS = ['two tokens may abut exactly when no longer token could be formed across the junction (rule written down in may_abut(), from the lexical grammar)',
                'implicit names of syntax sugar: list, dict, __getitem__, __setitem__, __delitem__, __setitem_with_op__',
                'a partially consumed list_names generator is abandoned, never resumed after another call']
@@ -109,6 +111,10 @@ def cases(ctx):
                             ('a[b]=c;d+=e\ndel f[g]', list('abcdefg')), ('not in if else and or True False None del', []), ('', []), ('# only names here', []),
                             ('(p, q) => p | g(q)', ['p', 'q', 'p', 'g', 'q']), ('%a%\n%b%', ['%a%', '%b%']), ('"a" \'b\' r"c"', []), ('x\r\ny', ['x', 'y'])]:
             yield ('direct', text, truth)
+    if os.environ.get('C18_ONLY') == 'cgf':          # development aid (never set by a registered command)
+        yield ('cgf', rnd.getrandbits(30), ctx.scale(6, 150))
+        return
+    yield ('cgf', rnd.getrandbits(30), ctx.scale(6, 150))          # coverage-guided texts, one fuzzing process per worker
     for _ in range(ctx.scale(12000, 150000)):
         yield ('gen', rnd.getrandbits(48))
 
@@ -182,8 +188,65 @@ class RecordingRO(collections.abc.Mapping):
         return len(self.data)
 
 
+def judge_text(ctx, case, text):
+    """a text as it stands: list_names vs the NAME tokens of the reference lexer (lib/reflex.py), ParserError after exactly the names before an illegal character"""
+    from smartquery.exceptions import ParserError
+    from lib import reflex
+    try:
+        truth, bad = [t[1] for t in reflex.tokens(text) if t[0] == 'NAME'], False
+    except reflex.LexError as e:
+        truth, bad = [t[1] for t in e.tokens if t[0] == 'NAME'], True
+    got, err = [], None
+    try:
+        for n in ctx.P_plain.list_names(text):
+            got.append(n)
+    except Exception as e:
+        err = e
+    ctx.count('texts_judged_as_they_stand')
+    if bad:
+        if not isinstance(err, ParserError):
+            ctx.violation('lexically invalid text: list_names raised %s' % (type(err).__name__ if err else 'nothing'), case, detail={'text': text[:300], 'yielded': got})
+        elif got != truth:
+            ctx.violation('names yielded before the lexical error differ from the identifiers before it', case, detail={'text': text[:300], 'expected': truth, 'got': got})
+    elif err is not None:
+        ctx.violation('list_names raised %s on lexically valid text' % type(err).__name__, case, detail={'text': text[:300], 'error': str(err)[:200]})
+    elif got != truth:
+        ctx.violation('list_names differs from the identifiers in the text', case, detail={'text': text[:300], 'expected': truth, 'got': got})
+
+
+def run_cgf(case, ctx):
+    """coverage-guided texts (lib/cgfuzz.py, mode c18); inputs on which the fuzzing process saw a difference are judged again here"""
+    from lib import cgdriver
+    _, seed, seconds = case
+    r = random.Random(seed)
+    seeds = ['x = [1, 2]\nx | map(v => v * 2)', '%a b% = r"\\d+" # c d\n(p, q) => p ** -q', 'not in if else and or True False None del notx in1', 'f("x")#y\n"s"in x', '1a x.y(z) %c.d%%e%',
+             'a $ b', '"unterminated', 'x=>x+y', "'q' r'raw' r "]
+    for i in range(10):
+        seeds.append(gram.render(gram.gen('code', r, r.randint(1, 5))[:60], gram.Cyc(r.getrandbits(20)))[1])
+    out = cgdriver.run(ctx, 'c18', seed, seconds, seeds)
+    if out is None:
+        return
+    st, fired, _slow = out
+    for k in ('lexically_invalid', 'valid'):
+        ctx.count('coverage_guided_texts_' + k, st.get(k, 0))
+    for text in fired:
+        ctx.count('inputs_on_which_the_oracle_fired_in_the_fuzzing_process')
+        before = len(ctx.violations)
+        judge_text(ctx, ('text', text), text)
+        if len(ctx.violations) == before:
+            ctx.violation('coverage-guided fuzzing: the oracle fired in the fuzzing process but not when the input was judged again here', ('text', text), detail={'text': text[:300]})
+
+
+def case_deadline(case):
+    return case[2] + 200 if case[0] == 'cgf' else CASE_DEADLINE
+
+
 def run_case(case, ctx):
     from smartquery.exceptions import ParserError
+    if case[0] == 'cgf':
+        return run_cgf(case, ctx)
+    if case[0] == 'text':
+        return judge_text(ctx, case, case[1])
     P = ctx.P
     if case[0] == 'direct':
         text, truth = case[1], list(case[2])
